@@ -510,6 +510,12 @@ func (env *SpecEnv) evalCall(e *SExpr) Val {
 		key, srt := fc.elemsKey(elem)
 		c := app("select", fc.heapGet(env.st(), key, srt), app("s-arr", sv.T))
 		return Val{T: app(fn, c, fc.addIdx(app("s-off", sv.T), fc.toIdx(arg(1))), fc.toIdx(arg(2))), Ty: elem}
+	case "oncedone": // oncedone(x.f): has the sync.Once value field f of *x fired
+		a, ok := env.fieldAddrOf(e.Args[0])
+		if !ok {
+			env.fail(e, "oncedone: argument must be a sync.Once field y.f of a pointer y")
+		}
+		return Val{T: app("select", fc.heapGet(env.st(), "$oncedone", "(Array Int Bool)"), a.T), Ty: tBool}
 	case "noelems": // the empty set of references ([0]bool, all false)
 		return Val{T: "((as const (Array Int Bool)) false)", Ty: types.NewArray(tBool, 0)}
 	case "addrof": // addrof(y.f): the address of the struct-valued field f of *y
